@@ -848,19 +848,19 @@ Proof.
   split; [exact H1|]. split; [exact H2|]. split; [apply strip_meta_keeps; exact H3|].
   revert H4. generalize (d_changes t) (d_changes t'). clear. intros l l0; revert l0.
   induction l as [|c l IH]; intros [|c' l'] HL; try discriminate; constructor.
-  - cbn in HL. injection HL as Hc _.
+  - cbn [map] in HL. assert (Hc : strip_change c' = strip_change c) by congruence.
     pose proof (f_equal c_opts Hc) as C1. pose proof (f_equal c_pre Hc) as C2.
     pose proof (f_equal c_meta Hc) as C3. pose proof (f_equal c_files Hc) as C4.
     cbn [strip_change c_opts c_pre c_meta c_files] in C1, C2, C3, C4.
     split; [exact C1|]. split; [exact C2|]. split; [apply strip_meta_keeps; exact C3|].
     revert C4. generalize (c_files c) (c_files c'). clear. intros l0 l1; revert l1.
     induction l0 as [|f l0 IHf]; intros [|f' l0'] Hf; try discriminate; constructor.
-    + cbn in Hf. injection Hf as Hf _.
+    + cbn [map] in Hf. assert (Hf1 : strip_file f' = strip_file f) by congruence. clear Hf; rename Hf1 into Hf.
       pose proof (f_equal f_opts Hf) as F1. pose proof (f_equal f_meta Hf) as F2. pose proof (f_equal f_diff Hf) as F3.
       cbn [strip_file f_opts f_meta f_diff] in F1, F2, F3.
       split; [exact F1|]. split; [exact F3|]. apply strip_meta_keeps; exact F2.
-    + apply IHf. cbn in Hf. injection Hf; auto.
-  - apply IH. cbn in HL. injection HL; auto.
+    + apply IHf. cbn [map] in Hf. congruence.
+  - apply IH. cbn [map] in HL. congruence.
 Qed.
 
 (* inside the statistics objects, every key other than the computed ones is kept, at each of the three levels *)
@@ -916,9 +916,9 @@ Proof.
     rewrite (merge_stats_idem _ _ _ (NoDup_change_keys (length fs) i d l) E1). reflexivity.
   - apply map_res_Forall2 in E. clear -E. induction E; constructor; auto. eapply file_stats_idem; eauto.
 Qed.
-Theorem C13_idem : forall t t1 t2, tree_stats t = Ok t1 -> tree_stats t1 = Ok t2 -> t2 = t1.
+Lemma tree_stats_idem : forall t t1, tree_stats t = Ok t1 -> tree_stats t1 = Ok t1.
 Proof.
-  intros t t1 t2 H H2. assert (X : tree_stats t1 = Ok t1); [|congruence]. clear H2.
+  intros t t1 H.
   rewrite tree_stats_eq in H.
   inv_bind H. rename x into cs. inv_bind H. destruct x as [[[f i] d] l]. inv_bind H. injection H as <-.
   rewrite tree_stats_eq. cbn [with_tree_meta d_changes d_meta m_content].
@@ -927,17 +927,8 @@ Proof.
     rewrite (merge_stats_idem _ _ _ (NoDup_tree_keys (length cs) f i d l) E1). reflexivity.
   - apply map_res_Forall2 in E. clear -E. induction E; constructor; auto. eapply change_stats_idem; eauto.
 Qed.
-(* generating on an already generated tree never fails *)
-Corollary C13_idem_total : forall t t1, tree_stats t = Ok t1 -> tree_stats t1 = Ok t1.
-Proof.
-  intros t t1 H. destruct (tree_stats t1) as [t2|e] eqn:E.
-  - f_equal. eapply C13_idem; eauto.
-  - exfalso. revert E.
-    rewrite tree_stats_eq in H.
-    inv_bind H. rename x into cs. inv_bind H. destruct x as [[[f i] d] l]. inv_bind H. injection H as <-.
-    rewrite tree_stats_eq. cbn [with_tree_meta d_changes d_meta m_content].
-    rewrite (map_res_fixed change_stats cs).
-    + cbn [bind]. rewrite E1. cbn [bind].
-      rewrite (merge_stats_idem _ _ _ (NoDup_tree_keys (length cs) f i d l) E2). discriminate.
-    + apply map_res_Forall2 in E0. clear -E0. induction E0; constructor; auto. eapply change_stats_idem; eauto.
-Qed.
+(* generating twice equals generating once: plain equality (dict.update keeps the position of existing keys) *)
+Theorem C13_idem : forall t t1 t2, tree_stats t = Ok t1 -> tree_stats t1 = Ok t2 -> t2 = t1.
+Proof. intros t t1 t2 H H2. rewrite (tree_stats_idem _ _ H) in H2. congruence. Qed.
+(* and generating on an already generated tree never fails *)
+Definition C13_idem_total := tree_stats_idem.
